@@ -29,6 +29,7 @@ import (
 	"github.com/codenotary/immudb/pkg/api/schema"
 	"github.com/codenotary/immudb/pkg/auth"
 	"github.com/codenotary/immudb/pkg/server"
+	"github.com/codenotary/immudb/pkg/server/sessions"
 	_ "github.com/lib/pq"
 	"google.golang.org/grpc"
 	"google.golang.org/grpc/credentials/insecure"
@@ -65,12 +66,10 @@ func startServer() *testServer {
 	}
 	dir := lib.Scratch("c13-srv")
 	opts := server.DefaultOptions().WithDir(dir).WithPort(0).WithAddress("127.0.0.1").WithAuth(true).WithAdminPassword("immudb").
-		WithMetricsServer(false).WithWebServer(false).WithPgsqlServer(true).WithPgsqlServerPort(0).WithSynced(false)
-	var lg logger.Logger = logger.NewMemoryLoggerWithLevel(logger.LogError)
-	if os.Getenv("C13_SRVLOG") != "" {
-		lg = logger.NewSimpleLoggerWithLevel("srv", os.Stderr, logger.LogDebug)
-	}
-	srv := server.DefaultServer().WithOptions(opts).WithLogger(lg).(*server.ImmuServer)
+		WithMetricsServer(false).WithWebServer(false).WithPgsqlServer(true).WithPgsqlServerPort(0).WithSynced(false).
+		WithLogFormat(logger.LogFormatJSON).                                                                                                         // json + no log file: no call-to-action banner on stdout
+		WithSessionOptions(sessions.DefaultOptions().WithMaxSessionInactivityTime(24 * time.Hour).WithTimeout(24 * time.Hour).WithMaxSessions(1000)) // no wall-clock session expiry
+	srv := server.DefaultServer().WithOptions(opts).WithLogger(logger.NewMemoryLoggerWithLevel(logger.LogError)).(*server.ImmuServer)
 	if err := srv.Initialize(); err != nil {
 		panic(err)
 	}
@@ -413,8 +412,7 @@ func phaseFrontends(ts *testServer, maxLen int) {
 	defer ts.stop()
 	admin := ts.openSession()
 	ts.reset(admin, true)
-	// created lazily: an idle session would be expired by the server's session guard
-	fronts := []func() front{func() front { return &sessionFront{ts: ts, sctx: ts.openSession()} }, func() front { return newPgFront(ts) }}
+	fronts := []front{&sessionFront{ts: ts, sctx: ts.openSession()}, newPgFront(ts)}
 	c.Set("frontends_alphabet", func() string {
 		var s []string
 		for _, o := range frontOps {
@@ -423,14 +421,13 @@ func phaseFrontends(ts *testServer, maxLen int) {
 		return strings.Join(s, ", ")
 	}())
 	c.Set("frontends_length_target", maxLen)
-	for _, mk := range fronts {
-		f := mk()
-		frontier := [][]int{{}}
-		closed := 0
-		for d := 1; d <= maxLen; d++ {
+	frontier := [][][]int{{{}}, {{}}} // per front
+	closed := []int{0, 0}
+	for d := 1; d <= maxLen; d++ { // both fronts finish length d before d+1
+		for fi, f := range fronts {
 			var next [][]int
 			n := 0
-			for _, p := range frontier {
+			for _, p := range frontier[fi] {
 				for _, op := range frontOps {
 					if c.Expired() {
 						c.CapHit(fmt.Sprintf("front %s: time budget reached at length %d after %d programs", f.name(), d, n))
@@ -438,14 +435,14 @@ func phaseFrontends(ts *testServer, maxLen int) {
 					}
 					path := append(append(make([]int, 0, d), p...), op)
 					ts.reset(admin, false)
-					closeIt := closed < closedSessionCases && d >= 2
+					closeIt := closed[fi] < closedSessionCases && d >= 2
 					var stop, inTx bool
 					if pn := lib.Catch(func() { stop, inTx = runFrontProgram(f, ts, path, closeIt) }); pn != "" {
 						c.Violate(lib.Violation{Sig: fmt.Sprintf("panic program=%s front=%s", prog(path), f.name()), Detail: pn, Replay: replay{f.name(), modeAll, path}})
 						return
 					}
 					if closeIt && inTx {
-						closed++
+						closed[fi]++
 					}
 					n++
 					c.Eval(f.name() + prog(path))
@@ -457,7 +454,7 @@ func phaseFrontends(ts *testServer, maxLen int) {
 			}
 			c.Set(fmt.Sprintf("front_%s_programs_length_%d", f.name(), d), n)
 			c.Set(fmt.Sprintf("front_%s_length_completed", f.name()), d)
-			frontier = next
+			frontier[fi] = next
 		}
 	}
 }
